@@ -418,3 +418,74 @@ func each(v reflect.Value, path string, fn func(path string, s reflect.Value), d
 		}
 	}
 }
+
+// ZeroFields sets to its zero value every struct field reachable from the
+// pointer ptr for which match returns true (unexported fields included).
+func ZeroFields(ptr any, match func(structType reflect.Type, field reflect.StructField) bool) {
+	v := reflect.ValueOf(ptr)
+	if v.Kind() != reflect.Ptr || v.IsNil() {
+		return
+	}
+	zeroFields(v.Elem(), match, 0)
+}
+
+func zeroFields(v reflect.Value, match func(reflect.Type, reflect.StructField) bool, depth int) {
+	if !v.IsValid() || depth > 300 {
+		return
+	}
+	v = settable(v)
+	switch v.Kind() {
+	case reflect.Ptr:
+		if !v.IsNil() {
+			zeroFields(v.Elem(), match, depth+1)
+		}
+	case reflect.Interface:
+		if v.IsNil() {
+			return
+		}
+		e := v.Elem()
+		switch e.Kind() {
+		case reflect.Ptr, reflect.Map, reflect.Slice:
+			zeroFields(e, match, depth+1)
+		case reflect.Struct:
+			cp := reflect.New(e.Type()).Elem()
+			cp.Set(e)
+			zeroFields(cp, match, depth+1)
+			if v.CanSet() {
+				v.Set(cp)
+			}
+		}
+	case reflect.Slice, reflect.Array:
+		for i := 0; i < v.Len(); i++ {
+			zeroFields(v.Index(i), match, depth+1)
+		}
+	case reflect.Map:
+		if v.IsNil() {
+			return
+		}
+		for _, k := range v.MapKeys() {
+			val := v.MapIndex(k)
+			switch val.Kind() {
+			case reflect.Struct, reflect.Interface:
+				cp := reflect.New(val.Type()).Elem()
+				cp.Set(val)
+				zeroFields(cp, match, depth+1)
+				v.SetMapIndex(k, cp)
+			default:
+				zeroFields(val, match, depth+1)
+			}
+		}
+	case reflect.Struct:
+		for i := 0; i < v.NumField(); i++ {
+			f := v.Field(i)
+			if match(v.Type(), v.Type().Field(i)) {
+				sf := settable(f)
+				if sf.CanSet() {
+					sf.Set(reflect.Zero(sf.Type()))
+				}
+				continue
+			}
+			zeroFields(f, match, depth+1)
+		}
+	}
+}
